@@ -69,33 +69,36 @@ def insertByE [LT E] [DecidableLT E] (p : Pt R × E) : List (Pt R × E) → List
 def sortByE [LT E] [DecidableLT E] (l : List (Pt R × E)) : List (Pt R × E) :=
   l.foldl (fun acc p => insertByE p acc) []
 
-/-- evaluate the decorated objective (`wrap_nested`: constraints inside) at `x`, threading the evaluation log -/
-def evalK (o : Obj (Pt R) E) (x : Pt R) (log : List (Pt R × E)) : E × List (Pt R × E) := o.objK x log
-
 /-- shrink: `for j in 1..N: sim[j] = sim[0] + sigma*(sim[j]-sim[0]); fsim[j] = cost(sim[j])` -/
 def shrinkAll [Add R] [Sub R] [Mul R] (o : Obj (Pt R) E) (c : Coef R) (st : Pt R → Pt R) (x0 : Pt R) :
     List (Pt R × E) → List (Pt R × E) → List (Pt R × E) × List (Pt R × E)
   | [], log => ([], log)
   | (xj, _) :: rest, log =>
     let y := shrinkPt c x0 xj
-    let r := evalK o y log
+    let r := o.objK y log
     let rr := shrinkAll o c st x0 rest r.2
     ((st y, r.1) :: rr.1, rr.2)
 
 /-- generation 0 (l.275-294): constrain the guess, evaluate it; the other rows are zeros with energy `inf` -/
 def NM.gen0 (o : Obj (Pt R) E) (zero : R) (x0 : Pt R) : NM R E :=
   let x := o.K x0
-  let r := evalK o x []
+  let r := o.objK x []
   let blank : Pt R × E := (x0.map (fun _ => zero), o.top)
   let sx := (x, r.1) :: x0.map (fun _ => blank)
   { simplex := sx, log := r.2, stepLog := [(x, r.1)] }
+
+/-- sort, log the best vertex in the step monitor -/
+def NM.finish [LT E] [DecidableLT E] (s : NM R E) (sx : List (Pt R × E)) (log : List (Pt R × E)) : NM R E :=
+  match sortByE sx with
+  | [] => s
+  | bst :: rest => { simplex := bst :: rest, log := log, stepLog := s.stepLog ++ [bst] }
 
 /-- generation 1 (l.296-310): vertex k+1 is the guess with coordinate k replaced by `val[k]`; then sort -/
 def buildRows (o : Obj (Pt R) E) (x0 : Pt R) : List R → Nat → List (Pt R × E) → List (Pt R × E) × List (Pt R × E)
   | [], _, log => ([], log)
   | v :: vs, k, log =>
     let y := x0.set k v
-    let r := evalK o y log
+    let r := o.objK y log
     let rr := buildRows o x0 vs (k + 1) r.2
     ((y, r.1) :: rr.1, rr.2)
 
@@ -107,52 +110,52 @@ def NM.gen1 [LT E] [DecidableLT E] (o : Obj (Pt R) E) (clip0 : Pt R → Pt R) (m
     let x0 := clip0 x0'
     let val := mkVal x0
     let rows := buildRows o x0 val 0 s.log
-    let sx := sortByE ((x0, f0) :: rows.1)
-    match sx with
-    | [] => s
-    | b :: _ => { simplex := sx, log := rows.2, stepLog := s.stepLog ++ [b] }
+    NM.finish s ((x0, f0) :: rows.1) rows.2
 
-/-- generation >= 2 (l.312-357): one Nelder-Mead update, then sort, then log the best vertex.
+/-- generation >= 2 (l.312-357), before the sort: the new (unsorted) simplex, the evaluation log, the branch.
 `st` is what the array handed to the cost looks like afterwards: the identity for a pure constraints function,
 `K` for one that modifies its argument in place (`wrap_nested` passes the numpy view `x[:]`, so an in-place
 constraints function rewrites the candidate vertex itself; with strict ranges `and_` copies first). -/
+def NM.core [Add R] [Sub R] [Mul R] [Div R] [LT E] [DecidableLT E] [LE E] [DecidableLE E]
+    (o : Obj (Pt R) E) (c : Coef R) (st : Pt R → Pt R) (x0 : Pt R) (f0 : E) (tl : List (Pt R × E))
+    (xw : Pt R) (fw fsw : E) (log : List (Pt R × E)) : List (Pt R × E) × List (Pt R × E) × Branch :=
+  let sx0 := (x0, f0) :: tl
+  let xbar := vdiv (vsumRows (sx0.dropLast.map Prod.fst)) c.n
+  let xr := reflectPt c xbar xw
+  let rr := o.objK xr log
+  if rr.1 < f0 then
+    let xe := expandPt c xbar xw
+    let re := o.objK xe rr.2
+    if re.1 < rr.1 then (sx0.dropLast ++ [(st xe, re.1)], re.2, .expand)
+    else (sx0.dropLast ++ [(st xr, rr.1)], re.2, .reflect1)
+  else if rr.1 < fsw then (sx0.dropLast ++ [(st xr, rr.1)], rr.2, .reflect2)
+  else if rr.1 < fw then
+    let xc := contractOutPt c xbar xw
+    let rc := o.objK xc rr.2
+    if rc.1 ≤ rr.1 then (sx0.dropLast ++ [(st xc, rc.1)], rc.2, .contractOut)
+    else
+      let sh := shrinkAll o c st x0 tl rc.2
+      ((x0, f0) :: sh.1, sh.2, .shrink)
+  else
+    let xcc := contractInPt c xbar xw
+    let rc := o.objK xcc rr.2
+    if rc.1 < fw then (sx0.dropLast ++ [(st xcc, rc.1)], rc.2, .contractIn)
+    else
+      let sh := shrinkAll o c st x0 tl rc.2
+      ((x0, f0) :: sh.1, sh.2, .shrink)
+
+/-- one `_Step` at generation >= 2: `sim[0] = constraints(sim[0])` (energy kept), update, sort, log -/
 def NM.update [Add R] [Sub R] [Mul R] [Div R] [LT E] [DecidableLT E] [LE E] [DecidableLE E]
     (o : Obj (Pt R) E) (c : Coef R) (st : Pt R → Pt R) (s : NM R E) : NM R E × Branch :=
   match s.simplex with
   | [] => (s, .init)
   | (x0', f0) :: tl =>
-    let x0 := o.K x0'                              -- `sim[0] = constraints(sim[0])` (energy kept)
+    let x0 := o.K x0'
     let sx0 := (x0, f0) :: tl
     match sx0.getLast?, sx0.dropLast.getLast? with
     | some (xw, fw), some (_, fsw) =>               -- worst, second worst
-      let xbar := vdiv (vsumRows (sx0.dropLast.map Prod.fst)) c.n
-      let xr := reflectPt c xbar xw
-      let rr := evalK o xr s.log
-      let fin (sx : List (Pt R × E)) (log : List (Pt R × E)) (b : Branch) : NM R E × Branch :=
-        let sorted := sortByE sx
-        match sorted with
-        | [] => (s, b)
-        | bst :: _ => ({ simplex := sorted, log := log, stepLog := s.stepLog ++ [bst] }, b)
-      if rr.1 < f0 then
-        let xe := expandPt c xbar xw
-        let re := evalK o xe rr.2
-        if re.1 < rr.1 then fin (sx0.dropLast ++ [(st xe, re.1)]) re.2 .expand
-        else fin (sx0.dropLast ++ [(st xr, rr.1)]) re.2 .reflect1
-      else if rr.1 < fsw then fin (sx0.dropLast ++ [(st xr, rr.1)]) rr.2 .reflect2
-      else if rr.1 < fw then
-        let xc := contractOutPt c xbar xw
-        let rc := evalK o xc rr.2
-        if rc.1 ≤ rr.1 then fin (sx0.dropLast ++ [(st xc, rc.1)]) rc.2 .contractOut
-        else
-          let sh := shrinkAll o c st x0 sx0.tail rc.2
-          fin ((x0, f0) :: sh.1) sh.2 .shrink
-      else
-        let xcc := contractInPt c xbar xw
-        let rc := evalK o xcc rr.2
-        if rc.1 < fw then fin (sx0.dropLast ++ [(st xcc, rc.1)]) rc.2 .contractIn
-        else
-          let sh := shrinkAll o c st x0 sx0.tail rc.2
-          fin ((x0, f0) :: sh.1) sh.2 .shrink
+      let r := NM.core o c st x0 f0 tl xw fw fsw s.log
+      (NM.finish s r.1 r.2.1, r.2.2)
     | _, _ => (s, .init)
 
 end MysticVerif.Solver
